@@ -396,4 +396,4 @@ def finalize(cases, results, tier, extras):
         inc.append("exhaustive exploration ran out of budget in %d shards" % tot["budget_exhausted"])
     ex = [r for r in results if str(r.get("id", "")).startswith("exhaustive")]
     return {"inconclusive": inc, "coverage": {"exhaustive": False, "exhaustive_part": "all histories up to depth %s over 2 users x 2 SPs (abstract-state pruned)" % (
-        cases[0]["depth"] if cases else "?"), "exhaustive_histories": sum(r.get("counters", {}).get("histories", 0) for r in ex)}}
+        next((c["depth"] for c in cases if "depth" in c), "?")), "exhaustive_histories": sum(r.get("counters", {}).get("histories", 0) for r in ex)}}
